@@ -177,8 +177,24 @@ def rule_r1(chk):
     ok = "current_start=column+1" in src and "names=name_row[current_start:column]" in src and "num_columns=column-current_start" in src and "name_row+=['__']" in src
     chk.ob("C19-R1", "databoxes._imports._block_iterator[column range]", ok, "block = cells after the mark up to the next mark (or the sentinel)", im.loc(bi))
     ra = im.func("_read_array_for_block")
-    ok = "usecols=[cforcinrange(block.column_start,block.column_start+block.num_columns)]" in squash(ra) and "skip_header=skip_header" in squash(ra)
-    chk.ob("C19-R1", "databoxes._imports._read_array_for_block", ok, "numeric data are read from the same column range below the header rows", im.loc(ra))
+    from .. import fin
+    from ..core import inline_locals
+    gcalls = [c for c in ast.walk(ra) if isinstance(c, ast.Call) and (dotted(c.func) or "").endswith("genfromtxt")]
+    ok, detail = None, "genfromtxt call not recognised"
+    if len(gcalls) == 1:
+        kw = {k.arg: k.value for k in gcalls[0].keywords if k.arg}
+        rps = params(ra)
+        try:
+            uc = inline_locals(ra, kw["usecols"])
+            sk = inline_locals(ra, kw["skip_header"])
+            cols = list(fin.ev(uc, {f"{rps[1]}.column_start": 3, f"{rps[1]}.num_columns": 4}))
+            skip = fin.ev(sk, {rps[2]: 2})
+            ok = cols == [3, 4, 5, 6] and skip == 2
+            detail = (f"a block starting at column 3 with 4 columns is read from columns {cols} below {skip} header rows "
+                      "(want 3..6 below the header rows it was told)")
+        except (fin.NotFinite, KeyError, TypeError) as ex:
+            ok, detail = None, f"usecols / skip_header not evaluable: {ex}"
+    chk.ob("C19-R1", "databoxes._imports._read_array_for_block", ok, detail, im.loc(ra))
     ad = im.func("_add_series_for_block")
     src = squash(ad)
     ok = "array=array[block.row_index,:]" in src and "series.set_data(block.periods,array[:,columns])" in src and "Series(num_variants=len(columns),description=description)" in src
